@@ -14,7 +14,7 @@ import os
 import verif
 from verif import Infra, log
 
-TRACE_CFG = 'SPECIFICATION TraceSpec\nCONSTANTS MaxBad = 60000 KeyedBy = "short" MaxHist = 0\nCHECK_DEADLOCK FALSE\nPOSTCONDITION Post\n'
+TRACE_CFG = 'SPECIFICATION TraceSpec\nCONSTANTS MaxBad = 60000 KeyedBy = "full" MaxHist = 0\nCHECK_DEADLOCK FALSE\nPOSTCONDITION Post\n'
 MODES = ["own", "alt.Recompose", "oj.Unmarshal", "sen.Unmarshal"]
 # kinds of the C15 menu that can be recomposed at all (exported fields, no custom encoders, no time: see DESIGN-notes/C16.md)
 RT_KINDS = {"bool", "int", "uint8", "float", "string", "*int", "*S", "[]int", "[]uint8", "[]S", "[]*S", "[2]int", "map[string]int",
